@@ -45,6 +45,7 @@ SP_INT = {"$spec": {"t": "int"}}
 SP_INT1 = {"$spec": {"t": "int", "value": 1}}
 SP_STR = {"$spec": {"t": "str", "value": "a"}}
 SP_ANY = {"$spec": {"t": "any", "alts": [{"t": "int"}, {"t": "none"}]}}
+SP_MARKER_FIRST = {"$spec": {"t": "dict", "entries": [{"key": "id", "opt": False, "spec": {"t": "int"}}], "relaxed": True, "relaxed_at": 0}}
 SP_DICT0 = {"$spec": {"t": "dict", "entries": [], "relaxed": False}}       # its repr holds braces
 SP_BRACES = {"$spec": {"t": "str", "value": "{x}"}}
 SP_ANYBARE = {"$spec": {"t": "any"}}        # accepts every value (the Ellipsis object included)
@@ -80,18 +81,18 @@ UNIVERSE = {
                        [Zoo("re_compiled_icase")], ["x{2}"]]),
     "list": _calls("__call__", [[[]], [[SP_INT1]], [[SP_INT1, SP_STR]], [[SP_INT, E]], [[E, SP_INT]],
                                 [[E, SP_INT, E]], [[E]], [[E, E]], [[SP_INT, E, SP_INT]],
-                                [[SP_ANYBARE, SP_INT1]], [[SP_DICT0]], [[SP_BRACES, E]], [[SP_INT1, SP_ANYBARE]], [[SP_INT, SP_STR]], [[SP_ANYBARE, E]],
+                                [[SP_ANYBARE, SP_INT1]], [[SP_DICT0]], [[SP_BRACES, E]], [[SP_MARKER_FIRST]], [SP_MARKER_FIRST], [[SP_INT1, SP_ANYBARE]], [[SP_INT, SP_STR]], [[SP_ANYBARE, E]],
                                 [[E, E, E]], [SP_INT], [SP_ANY], [[1]], [[None]], [(SP_INT,)],
                                 [None], ["ab"], [{}], [E], [NIL], [[[SP_INT]]]])
     + _calls("len", LEN1 + LEN2),
     "dict": _calls("__call__", [[{}], [{"a": SP_INT}], [{"a": SP_INT1, "b": SP_STR}],
                                 [{("$opt", "a"): SP_INT}],
-                                [{"a": SP_INT, E: E}], [{E: E}],
+                                [{"a": SP_INT, E: E}], [{E: E}], [{E: E, "a": SP_INT}], [{"a": SP_INT, E: E, "b": SP_STR}],
                                 [{E: SP_INT}], [{"a": E}],
                                 [{("$opt", "a"): E}],
                                 [{"a": 1}], [{"a": None}], [{1: SP_INT, None: SP_INT}],
                                 [[("a", SP_INT)]], [None], ["a"], [E], [NIL], [SP_INT]]),
-    "any": _calls("__call__", [[SP_INT], [SP_INT, SP_STR], [SP_ANY, SP_INT], [SP_INT, None], [1],
+    "any": _calls("__call__", [[SP_INT], [SP_MARKER_FIRST, SP_INT], [SP_INT, SP_STR], [SP_ANY, SP_INT], [SP_INT, None], [1],
                                [None], [E], [[SP_INT]], [NIL], [SP_INT, E]]),
     "bytes": _calls("__call__", [[b"ab"], [b""], ["ab"], [Zoo("bytearray")], [Zoo("bytes_subclass")],
                                  [None], [1], [E]]),
